@@ -3,12 +3,11 @@ import json, os
 from vlib import core
 
 THEOREMS = ["Props.C17." + t for t in [
-    "generated_cfg_is_std", "amp_escape_inverse", "type_annotation_escaped_once", "dump_literal_text", "literal_roundtrip",
+    "generated_cfg_is_std", "writer_plain", "type_annotation_escaped_once", "literal_roundtrip", "literal_roundtrip_parsed",
     "literal_roundtrip_iff_safe_witnesses", "annotation_roundtrip", "annotation_text_roundtrip", "numeric_roundtrip_int",
     "numeric_roundtrip_double", "constvalue_roundtrip", "dump_parse_partial", "dump_accepted_partial"]]
 
 PARTIAL = [
-    "literal_roundtrip: only for DumpSafe literals (no `\\\"`, no `##34;`, no `#OUTQUOTES`, not ending in a backslash); each excluded shape has a decided counterexample",
     "dump_parse_partial: composed by theorem for constant values (all six kinds, nested), annotation lists, literals and numbers; "
     "headers, typedef/const/enum/struct-like/service layouts are tied by whole-file byte correspondence and judged by the oracle only",
     "dump_accepted_partial: acceptance by the reader model of the dumped fragments; acceptance by the semantic checker is judged by the oracle only",
@@ -19,12 +18,11 @@ PARTIAL = [
 def run(ctx):
     exe = ctx.go_build("c17")
     ctx.partial += PARTIAL
-    ctx.trusted += ["translator harness/cmd/c17 extract (go/ast over tool/trimmer/dump/dump.go: constants of the escaping pipeline in source order; "
+    ctx.trusted += ["translator harness/cmd/c17 extract (go/ast over tool/trimmer/dump/dump.go: writeString and the tail of DumpIDL are plain, constants of quoteLiteral; "
                     "parser/thrift.peg rules Literal/EscapeLiteralChar/IntConstant/DoubleConstant/Annotation(s)/ConstValue/Identifier compared with the text the reader model follows)",
                     "correspondence harness harness/cmd/c17 run vs tv_c17 (whole-file byte equality of dump.DumpIDL and Dump.dump; parser vs reader model on literals, numbers, annotation lists)",
                     "oracle harness/cmd/c17 (AST comparison after parser.ParseString(dump.DumpIDL(ast)); semantic.CheckAll/ResolveSymbols before and after; tool/trimmer binary with -r)"]
     ctx.assumptions += [
-        "html.UnescapeString on a buffer in which every '&' is followed by 'amp;' replaces each '&amp;' by '&' left to right (modelled only there; checked by U ops)",
         "strconv.FormatFloat(x,'f',-1,64) has the shape -?digits(.digits)? and strconv.ParseFloat of it returns x (parameters ff/pf of the model; instances supplied by the harness per case)",
         "the parser's []rune buffer is modelled byte-wise: valid UTF-8 only (bytes >= 0x80 are never quote, backslash, digit or letter)",
         "strings.TrimSpace emptiness in printComment modelled for ASCII white space",
@@ -76,5 +74,5 @@ def run(ctx):
             ctx.diff_lines("c17", os.path.join(ctx.work, "ops.txt"), os.path.join(ctx.work, "impl.txt"), model)
     return ctx.finish(rule="F ops: generated IDL programs parsed by the real parser (plus hand-built ASTs outside the parser's range), whole dumped file compared byte for byte; "
                            "R/N/V/P/A ops: literal, number, constant-value and annotation-list texts read by the real parser vs the reader model "
-                           "(V in source layout and, where the round trip holds, in the dumper's own layout); U ops: html.UnescapeString on escaped images. "
-                           "non-trivial: F always, R/N/V/P when the text is accepted, A with >= 2 pairs, U with an '&'; distinct by sha256 of the op line")
+                           "(V in source layout and, where the round trip holds, in the dumper's own layout); "
+                           "non-trivial: F always, R/N/V/P when the text is accepted, A with >= 2 pairs; distinct by sha256 of the op line")
